@@ -1,0 +1,6 @@
+//go:build !verif
+// +build !verif
+
+package runner
+
+func verifEvent(*TaskRunner, string, string, error) {}
